@@ -30,6 +30,7 @@ DEFINITE = [
     (re.compile(r"precondition not satisfied"), "precondition"),
     (re.compile(r"invariant not satisfied"), "invariant"),
     (re.compile(r"decreases not satisfied"), "decreases"),
+    (re.compile(r"could not prove termination"), "recursion measure does not decrease"),
     (re.compile(r"assertion failed"), "assertion"),
     (re.compile(r"possible arithmetic (underflow/overflow|overflow|underflow)"), "arithmetic overflow"),
     (re.compile(r"possible division by zero"), "division by zero"),
@@ -132,6 +133,30 @@ def check_accessor_impls(scratch, counts):
     if n == 0:
         raise Undecided("R1 not applicable: no BaseParser accessor impl found")
     counts["R1_accessor_impls_checked"] = n
+
+
+def check_flag_accessor_impls(scratch, counts):
+    """R27 (`self.flags_mut().set(F, v)` as one lexer-preserving method) is sound only if every
+    `impl StylesheetParser for X` returns its own `flags` field, a field distinct from `toks`."""
+    n = 0
+    for p in sorted(glob.glob(os.path.join(scratch, COMPILER_SRC, "**", "*.rs"), recursive=True)):
+        txt = open(p, errors="replace").read()
+        if "StylesheetParser<" not in txt or " for " not in txt:
+            continue
+        idx = vx_index(p)
+        raw = open(p, "rb").read()
+        for f in idx["fns"]:
+            if not (f["trait"] or "").startswith("StylesheetParser") or f["kind"] != "trait_impl":
+                continue
+            for nm, want in (("flags", "{ &self.flags }"), ("flags_mut", "{ &mut self.flags }")):
+                if f["path"].endswith("::" + nm) and f.get("body_open") is not None:
+                    body = " ".join(raw[f["body_open"] : f["body_close"] + 1].decode().split())
+                    if body != want:
+                        raise Undecided("R27 not applicable: %s in %s is %r" % (f["path"], p, body))
+                    n += 1
+    if n == 0:
+        raise Undecided("R27 not applicable: no StylesheetParser flag accessor impl found")
+    counts["R27_flag_accessor_impls_checked"] = n
 
 
 def apply_edits(raw, base, edits):
@@ -299,6 +324,8 @@ def build_unit(unit, scratch, outdir):
 
     if "R1" in unit.rules:
         check_accessor_impls(scratch, counts)
+    if "R27" in unit.rules:
+        check_flag_accessor_impls(scratch, counts)
     for eb in unit.d.get("expect_body", []):
         raw_e, idx_e = src_of(eb)
         fe = find_fn(idx_e, eb["path"], eb.get("trait"))
